@@ -289,6 +289,9 @@ func (f *vMFile) WriteAt(b []byte, off int64) (int, error) {
 	if err := vOsErr(); err != nil {
 		return 0, err
 	}
+	if len(b) == 0 {
+		return 0, nil
+	}
 	end := int(off) + len(b)
 	for len(f.data) < end {
 		f.data = append(f.data, 0)
